@@ -264,3 +264,221 @@ Proof.
 Qed.
 
 End AfTerm.
+
+Section AbTerm.
+Variable g : graph.
+Hypothesis IO : ins_ok g.
+Hypothesis NE : nonempty_decs g.
+
+Definition ab_loop (f : nat) (L : nat) :=
+  (fun lv '(s, idx) =>
+     if idx <? length (outs_of g s) then
+       if dist_lt (Some L) (lv s idx) then ab f g (aupd lv s idx (Some L)) s (S L) else Ok lv
+     else PyErr EIndexError).
+
+Lemma ab_unfold f lv n len :
+  ab (S f) g lv n len =
+  if is_all g n then
+    match outs_of g n with
+    | [] => PyErr EValueError
+    | _ => match max_outs g lv n with None => Ok lv | Some L => foldM (ab_loop f L) (ins_of g n) lv end
+    end
+  else foldM (ab_loop f len) (ins_of g n) lv.
+Proof. reflexivity. Qed.
+
+Lemma ab_decreases : forall f lv n len lv', ab f g lv n len = Ok lv' -> map_le lv' lv.
+Proof.
+  induction f as [|f IH]; intros lv n len lv' H; [discriminate|]. rewrite ab_unfold in H.
+  assert (G : forall L l lv0 lv1, foldM (ab_loop f L) l lv0 = Ok lv1 -> map_le lv1 lv0).
+  { intros L. induction l as [|[s idx] l IHl]; intros lv0 lv1 F; cbn [foldM bind] in F; [inversion F; subst; apply map_le_refl|].
+    unfold ab_loop at 1 in F. destruct (idx <? _); [|discriminate].
+    destruct (dist_lt (Some L) (lv0 s idx)) eqn:E.
+    - destruct (ab f g (aupd lv0 s idx (Some L)) s (S L)) as [lv2| | |] eqn:E1; cbn [bind] in F; try discriminate.
+      eapply map_le_trans; [eapply IHl; eauto|]. eapply map_le_trans; [eapply IH; eauto|]. apply map_le_aupd. exact E.
+    - cbn [bind] in F. eapply IHl; eauto. }
+  destruct (is_all g n).
+  - destruct (outs_of g n); [discriminate|]. destruct (max_outs g lv n); [eapply G; eauto|inversion H; subst; apply map_le_refl].
+  - eapply G; eauto.
+Qed.
+
+Lemma fold_max_ub l L : fold_right dist_max (Some 0) l = Some L -> forall d, In d l -> dle d (Some L).
+Proof.
+  revert L; induction l as [|x r IH]; simpl; intros L H d Hd; [contradiction|].
+  destruct x as [vx|]; simpl in H; [|discriminate].
+  destruct (fold_right dist_max (Some 0) r) as [m|] eqn:E; [|discriminate].
+  inversion H; subst L. destruct Hd as [<-|Hd]; simpl; [lia|].
+  specialize (IH m eq_refl d Hd). destruct d; simpl in *; auto. lia.
+Qed.
+
+Lemma max_outs_ub lv n L i : max_outs g lv n = Some L -> i < length (outs_of g n) -> dle (lv n i) (Some L).
+Proof.
+  unfold max_outs. intros H Li. eapply fold_max_ub; eauto.
+  eapply nth_error_In. apply row_nth. exact Li.
+Qed.
+
+Lemma ab_terminates : forall f lv n len stack,
+  NoDup stack -> incl stack (recs_out g) ->
+  (forall r, In r stack -> dlt (lv (fst r) (snd r)) len) ->
+  (is_all g n = true -> exists i, i < length (outs_of g n) /\ dle (Some (len - 1)) (lv n i)) ->
+  length (recs_out g) - length stack < f ->
+  exists lv', ab f g lv n len = Ok lv'.
+Proof.
+  induction f as [|f IH]; intros lv n len stack ND I St Pre Fu; [lia|]. rewrite ab_unfold.
+  assert (G : forall L, len <= S L -> forall l lv0,
+             (forall s idx, In (s, idx) l -> In (s, idx) (ins_of g n)) -> map_le lv0 lv ->
+             exists lv', foldM (ab_loop f L) l lv0 = Ok lv' /\ map_le lv' lv0).
+  { intros L HL. induction l as [|[s idx] l IHl]; intros lv0 Hl M; cbn [foldM bind]; [exists lv0; split; auto; apply map_le_refl|].
+    destruct (IO n s idx (Hl s idx (or_introl eq_refl))) as [Ds Ns].
+    assert (Li : idx < length (outs_of g s)) by (apply nth_error_Some; congruence).
+    unfold ab_loop at 1. destruct (Nat.ltb_spec idx (length (outs_of g s))) as [_|]; [|lia].
+    destruct (dist_lt (Some L) (lv0 s idx)) eqn:DL.
+    - assert (Nin : ~ In (s, idx) stack).
+      { intros Hs. specialize (St _ Hs). simpl in St. pose proof (M s idx) as Ml.
+        destruct (lv0 s idx) as [v0|], (lv s idx) as [v|]; simpl in *; try contradiction.
+        apply Nat.ltb_lt in DL. lia. }
+      assert (Hrec : In (s, idx) (recs_out g)) by (apply in_recs_out; auto; apply is_dec_lt; exact Ds).
+      pose proof (stack_room stack (recs_out g) (s, idx) ND I Hrec Nin) as Room.
+      destruct (IH (aupd lv0 s idx (Some L)) s (S L) ((s, idx) :: stack)) as (lv1 & E1).
+      + constructor; auto.
+      + intros r [<-|Hr]; auto.
+      + intros r [<-|Hr]; simpl.
+        * rewrite aupd_same. simpl. lia.
+        * apply dlt_weaken with (k := len); [lia|].
+          eapply dlt_le; [|apply St; exact Hr].
+          eapply dle_trans; [apply map_le_aupd; exact DL|apply M].
+      + intros _. exists idx. split; auto. rewrite aupd_same. simpl. lia.
+      + simpl. lia.
+      + rewrite E1. cbn [bind].
+        pose proof (ab_decreases _ _ _ _ _ E1) as M1.
+        assert (M2 : map_le lv1 lv).
+        { eapply map_le_trans; [exact M1|]. eapply map_le_trans; [apply map_le_aupd; exact DL|exact M]. }
+        destruct (IHl lv1 (fun a b Hx => Hl a b (or_intror Hx)) M2) as (lv2 & E2 & M3).
+        exists lv2. split; auto. eapply map_le_trans; [exact M3|].
+        eapply map_le_trans; [exact M1|]. apply map_le_aupd. exact DL.
+    - cbn [bind]. destruct (IHl lv0 (fun a b Hx => Hl a b (or_intror Hx)) M) as (lv2 & E2 & M3).
+      exists lv2. split; auto. }
+  destruct (is_all g n) eqn:A.
+  - assert (D : is_dec g n = true) by (unfold is_all, is_dec in *; destruct (kind_of g n); auto; discriminate).
+    destruct (outs_of g n) as [|o os] eqn:O; [exfalso; apply (NE n D O)|].
+    destruct (max_outs g lv n) as [L|] eqn:M; [|eauto].
+    destruct (Pre eq_refl) as (i & Li & Di).
+    assert (HL : len <= S L).
+    { rewrite <- O in Li. pose proof (max_outs_ub lv n L i M Li) as U.
+      destruct (lv n i) as [v|]; simpl in *; [lia|contradiction]. }
+    destruct (G L HL (ins_of g n) lv (fun _ _ H => H) (map_le_refl lv)) as (lv' & E & _). eauto.
+  - destruct (G len ltac:(lia) (ins_of g n) lv (fun _ _ H => H) (map_le_refl lv)) as (lv' & E & _). eauto.
+Qed.
+
+Lemma ab_leaves_terminate f : length (recs_out g) < f ->
+  forall leaves lv0, (forall l, In l leaves -> is_all g l = false) ->
+  exists lv, foldM (fun lv l => ab f g lv l 0) leaves lv0 = Ok lv.
+Proof.
+  intros F. induction leaves as [|l ls IH]; intros lv0 H; simpl; [eauto|].
+  destruct (ab_terminates f lv0 l 0 [] ltac:(constructor) ltac:(intros x []) ltac:(intros r []))
+    as (lv1 & E); [intros A; rewrite (H l (or_introl eq_refl)) in A; discriminate|simpl; lia|].
+  rewrite E. simpl. apply IH. intros; apply H; right; auto.
+Qed.
+
+End AbTerm.
+
+(* ---------- the analysis phase of generate_paths always ends, with a budget linear in the graph ---------- *)
+Definition analysis_budget (g : graph) : nat := S (length g + length (recs_in g) + length (recs_out g)).
+
+Theorem analyse_terminates V g root :
+  consistent g -> nonempty_decs g -> fix_af V = true -> root < length g ->
+  forall fuel lr0 lv0, analysis_budget g <= fuel -> exists a, analyse V fuel g root lr0 lv0 = Ok a.
+Proof.
+  intros [IO OO] NE FA L fuel lr0 lv0 B. unfold analysis_budget in B. unfold analyse.
+  destruct (items_terminates g root OO L fuel ltac:(lia)) as [its E]. rewrite E. cbn [bind].
+  set (lr1 := if fix_reset V then areset its lr0 else lr0).
+  set (lv1 := if fix_reset V then areset its lv0 else lv0).
+  destruct (af_terminates V g FA OO fuel lr1 root 0 [] ltac:(constructor) ltac:(intros x []) ltac:(intros r []))
+    as [lr E2]; [simpl; lia|].
+  rewrite E2. cbn [bind].
+  destruct (ab_leaves_terminate g IO NE fuel ltac:(lia) (filter (leaf_is g true) its) lv1) as [lv E3].
+  - intros l Hl. apply filter_In in Hl. destruct Hl as [_ Hl].
+    unfold leaf_is, is_all in *. destruct (kind_of g l); auto; discriminate.
+  - rewrite E3. cbn [bind]. eauto.
+Qed.
+
+(* ---------- what _analyze_forwards establishes (with the fix): distances to the root ---------- *)
+Section AfSem.
+Variable V : variant.
+Variable g : graph.
+Variable root : nat.
+Hypothesis FA : fix_af V = true.
+Hypothesis OO : outs_ok g.
+
+(* every finite record of a node points to a source that is the root at distance 0, or that itself has a
+   strictly smaller finite record *)
+Definition Jr (lr : amap) : Prop :=
+  forall t pos s idx d, nth_error (ins_of g t) pos = Some (s, idx) -> lr t pos = Some d ->
+    (s = root /\ d = 0) \/ (exists pos', pos' < length (ins_of g s) /\ dlt (lr s pos') d).
+Definition PreR (lr : amap) (n len : nat) : Prop :=
+  (n = root /\ len = 0) \/ (exists pos', pos' < length (ins_of g n) /\ dlt (lr n pos') len).
+
+Lemma index_where_spec {A} (p : A -> bool) : forall l k j, index_where p l k = Some j ->
+  k <= j /\ exists x, nth_error l (j - k) = Some x /\ p x = true.
+Proof.
+  induction l as [|y r IH]; intros k j H; simpl in H; [discriminate|].
+  destruct (p y) eqn:Py.
+  - inversion H; subst. split; [lia|]. rewrite Nat.sub_diag. exists y. auto.
+  - destruct (IH _ _ H) as (L & x & N & Px). split; [lia|]. exists x. split; auto.
+    replace (j - k) with (S (j - S k)) by lia. exact N.
+Qed.
+
+Lemma Jr_le lr lr' : map_le lr' lr -> forall s pos' d, dlt (lr s pos') d -> dlt (lr' s pos') d.
+Proof. intros M s pos' d H. eapply dlt_le; [apply M|exact H]. Qed.
+
+Lemma af_Jr : forall f lr n len lr',
+  af V f g lr n len = Ok lr' -> Jr lr -> PreR lr n len -> Jr lr'.
+Proof.
+  induction f as [|f IH]; intros lr n len lr' H J Pre; cbn [af] in H; [discriminate|].
+  destruct (is_dec g n); [|inversion H; subst; auto].
+  assert (G : forall l lr0 lr1,
+     foldM (fun lr '(idx, t) =>
+               match index_where (af_pick V n idx) (ins_of g t) 0 with
+               | None => PyErr EIndexError
+               | Some pos => if dist_lt (Some len) (lr t pos) then af V f g (aupd lr t pos (Some len)) t (S len) else Ok lr
+               end) l lr0 = Ok lr1 -> Jr lr0 -> PreR lr0 n len -> Jr lr1).
+  { induction l as [|[idx t] l IHl]; intros lr0 lr1 F J0 P0; cbn [foldM bind] in F; [inversion F; subst; auto|].
+    destruct (index_where (af_pick V n idx) (ins_of g t) 0) as [pos|] eqn:IW; [|discriminate].
+    destruct (index_where_spec _ _ _ _ IW) as (_ & [s i] & Np & Pk). rewrite Nat.sub_0_r in Np.
+    unfold af_pick in Pk. rewrite FA in Pk. apply andb_true_iff in Pk. destruct Pk as [Ei Es].
+    apply Nat.eqb_eq in Ei, Es. subst i s.
+    destruct (dist_lt (Some len) (lr0 t pos)) eqn:DL.
+    - destruct (af V f g (aupd lr0 t pos (Some len)) t (S len)) as [lr2| | |] eqn:E1; cbn [bind] in F; try discriminate.
+      set (lrA := aupd lr0 t pos (Some len)) in *.
+      assert (MA : map_le lrA lr0) by (apply map_le_aupd; exact DL).
+      assert (JA : Jr lrA).
+      { intros t' pos' s' idx' d Nn Hd. unfold lrA, aupd in Hd.
+        destruct ((t' =? t) && (pos' =? pos)) eqn:Eq.
+        - apply andb_true_iff in Eq. destruct Eq as [E1' E2']. apply Nat.eqb_eq in E1', E2'. subst t' pos'.
+          rewrite Np in Nn. inversion Nn; subst s' idx'. inversion Hd; subst d.
+          destruct P0 as [[-> ->]|(p' & Lp' & Hp)]; [left; auto|right; exists p'; split; auto; eapply Jr_le; eauto].
+        - destruct (J0 _ _ _ _ _ Nn Hd) as [A|(p' & Lp' & Hp)]; [left; auto|right; exists p'; split; auto; eapply Jr_le; eauto]. }
+      assert (P1 : PreR lrA t (S len)).
+      { right. exists pos. split; [apply nth_error_Some; congruence|]. unfold lrA. rewrite aupd_same. simpl. lia. }
+      pose proof (IH _ _ _ _ E1 JA P1) as J2.
+      pose proof (af_decreases V g _ _ _ _ _ E1) as M2.
+      eapply IHl; [exact F|exact J2|].
+      destruct P0 as [A|(p' & Lp' & Hp)]; [left; auto|right; exists p'; split; auto].
+      eapply Jr_le; [|exact Hp]. eapply map_le_trans; eauto.
+    - cbn [bind] in F. eapply IHl; eauto. }
+  eapply G; eauto.
+Qed.
+
+(* every transition out of a node that has been analysed carries a finite distance *)
+Definition Qr (lr : amap) (s : nat) : Prop :=
+  forall idx t, nth_error (outs_of g s) idx = Some t ->
+    exists pos, nth_error (ins_of g t) pos = Some (s, idx) /\ lr t pos <> None.
+Definition analysed (lr : amap) (s : nat) : Prop := s = root \/ exists pos, pos < length (ins_of g s) /\ lr s pos <> None.
+Definition InvQ (lr : amap) (s : nat) : Prop := analysed lr s -> is_dec g s = true -> Qr lr s.
+
+Lemma mono_of_le lr lr' : map_le lr' lr -> forall a b, lr a b <> None -> lr' a b <> None.
+Proof. intros M a b H. specialize (M a b). destruct (lr' a b), (lr a b); simpl in *; try congruence; contradiction. Qed.
+
+Lemma Qr_mono lr lr' s : map_le lr' lr -> Qr lr s -> Qr lr' s.
+Proof. intros M Q idx t N. destruct (Q idx t N) as (pos & Np & F). exists pos. split; auto. eapply mono_of_le; eauto. Qed.
+
+End AfSem.
